@@ -6,7 +6,7 @@ from props import _family as F
 PROOF_MODULES = ['Jwt.Props.C06']
 PROP_MODULES = ['Jwt.Props.C06']
 PROP_FILES = ['Jwt/Props/C06.lean', 'Jwt/Lemmas/Pipeline.lean']
-GENERATED_FACT_THEOREMS = 2
+GENERATED_FACT_THEOREMS = 3
 CHECKER_CMD = "cd lean && lake build Jwt.Props.C06 && lake env lean <generated #print axioms file>"
 LEVEL_TEXT = ('Lean theorems: rc=0 => two dots, first segment decodes+loads to JSON with a known string alg, second decodes+loads; decoder buffer accesses in bounds for every length and buffer content (C11 instance); termination by structural recursion. Memory safety/UB/leaks of the compiled code are witnessed by sanitizer runs over exhaustive short strings, grammar-derived near-valid tokens, random bytes and long inputs, under keyless/oct/RSA/EC/OKP checkers; verdicts compared with the model.')
 ASSUMPTIONS = F.COMMON_ASSUME + ['PARTIAL: memory safety, UB and leaks of compiled libjwt/jansson/OpenSSL are runtime facts witnessed by ASan/UBSan/LSan on the inputs explored, not proved']
